@@ -180,18 +180,18 @@ Section RemovePrim.
   Lemma PK_child : forall h vs cs i, PK h vs cs -> i <= length vs -> wfn L I h (nth i cs dnode).
   Proof. intros h vs cs i [Hl Hf] Hi. rewrite Forall_forall in Hf. apply Hf. apply nth_In. lia. Qed.
 
-  Lemma wfn_leaf_inv : forall h (vs : list elt), wfn L I h (Leaf vs) -> h = 1 /\ minL L <= length vs <= L.
+  Lemma wfn_leaf_inv : forall h (vs : list elt), wfn L I h (Leaf vs) -> h = 1 /\ (L + 1) / 2 - 1 <= length vs <= L.
   Proof. intros [|h] vs; cbn; [tauto|]. intros [-> H]. auto. Qed.
 
   Lemma wfn_inode_inv : forall h (vs : list elt) cs, wfn L I h (Inode vs cs) ->
-    exists h', h = S h' /\ h' <> 0 /\ length cs = S (length vs) /\ minI I <= length vs <= I /\ Forall (wfn L I h') cs.
+    exists h', h = S h' /\ h' <> 0 /\ length cs = S (length vs) /\ (I + 1) / 2 - 1 <= length vs <= I /\ Forall (wfn L I h') cs.
   Proof. intros [|h] vs cs; cbn; [tauto|]. intros (H1 & H2 & H3 & H4). eauto 10. Qed.
 
-  Lemma wfn_leaf_intro : forall (vs : list elt), minL L <= length vs <= L -> wfn L I 1 (Leaf vs).
+  Lemma wfn_leaf_intro : forall (vs : list elt), (L + 1) / 2 - 1 <= length vs <= L -> wfn L I 1 (Leaf vs).
   Proof. intros. cbn. auto. Qed.
 
   Lemma wfn_inode_intro : forall h (vs : list elt) cs, h <> 0 -> length cs = S (length vs) ->
-    minI I <= length vs <= I -> Forall (wfn L I h) cs -> wfn L I (S h) (Inode vs cs).
+    (I + 1) / 2 - 1 <= length vs <= I -> Forall (wfn L I h) cs -> wfn L I (S h) (Inode vs cs).
   Proof. intros. cbn. auto. Qed.
 
   Lemma Forall_firstn : forall (P : node -> Prop) cs k, Forall P cs -> Forall P (firstn k cs).
@@ -203,6 +203,182 @@ Section RemovePrim.
   Proof.
     intros P cs k H. rewrite Forall_forall in *. intros x Hx. apply H.
     rewrite <- (firstn_skipn k cs). apply in_or_app. auto.
+  Qed.
+
+  Ltac unf := unfold min_vals, max_vals, n_vals, can_remove_from, is_full, minL, minI in *; cbn [is_leaf vals children] in *.
+
+  (* ---------------------------------------------------------------- rotate_left *)
+  Lemma rotate_left_spec : forall h vs cs i, PK h vs cs -> i < length vs ->
+    min_vals L I (nth (S i) cs dnode) < n_vals (nth (S i) cs dnode) ->
+    n_vals (nth i cs dnode) < max_vals L I (nth i cs dnode) ->
+    exists x l' r',
+      rotate_left dflt (Inode vs cs) i = Inode (aset vs i x) (aset (aset cs i l') (S i) r') /\
+      wfn L I h l' /\ wfn L I h r' /\
+      n_vals l' = S (n_vals (nth i cs dnode)) /\
+      S (n_vals r') = n_vals (nth (S i) cs dnode) /\
+      elements l' ++ x :: elements r' =
+      elements (nth i cs dnode) ++ nth i vs dflt :: elements (nth (S i) cs dnode).
+  Proof.
+    intros h vs cs i HP Hi Hr Hl.
+    pose proof (PK_child h vs cs i HP ltac:(lia)) as Wl.
+    pose proof (PK_child h vs cs (S i) HP ltac:(lia)) as Wr.
+    unfold rotate_left.
+    destruct (nth i cs dnode) as [lv|lv lc] eqn:El; destruct (nth (S i) cs dnode) as [rv|rv rc] eqn:Er.
+    - apply wfn_leaf_inv in Wl as [-> Bl]. apply wfn_leaf_inv in Wr as [_ Br]. unf.
+      destruct rv as [|v0 rv]; [cbn [length] in *; lia|].
+      exists v0, (Leaf (lv ++ [nth i vs dflt])), (Leaf rv). cbn [nth]. unfold aerase at 1. cbn [firstn skipn app].
+      split; [reflexivity|].
+      split; [apply wfn_leaf_intro; rewrite app_length; cbn [length] in *; lia|].
+      split; [apply wfn_leaf_intro; cbn [length] in *; lia|].
+      split; [unf; rewrite app_length; cbn [length]; lia|].
+      split; [unf; cbn [length]; lia|].
+      cbn [elements]. rewrite <- app_assoc. reflexivity.
+    - exfalso. apply wfn_leaf_inv in Wl as [-> _]. apply wfn_inode_inv in Wr as (h' & E & Hn & _). lia.
+    - exfalso. apply wfn_leaf_inv in Wr as [-> _]. apply wfn_inode_inv in Wl as (h' & E & Hn & _). lia.
+    - apply wfn_inode_inv in Wl as (h' & -> & Hn & Ll & Bl & Fl).
+      apply wfn_inode_inv in Wr as (h'' & E & _ & Lr & Br & Fr). injection E as <-. unf.
+      destruct rv as [|v0 rv]; [cbn [length] in *; lia|].
+      destruct rc as [|c0 rc]; [cbn [length] in *; lia|].
+      exists v0, (Inode (lv ++ [nth i vs dflt]) (lc ++ [c0])), (Inode rv rc). cbn [nth].
+      unfold aerase. cbn [firstn skipn app].
+      inversion Fr as [|? ? Fc0 Frc]; subst.
+      split; [reflexivity|].
+      split.
+      { apply wfn_inode_intro; auto.
+        - rewrite !app_length. cbn [length]. lia.
+        - rewrite app_length. cbn [length] in *. lia.
+        - apply Forall_app. split; auto. }
+      split; [apply wfn_inode_intro; auto; cbn [length] in *; lia|].
+      split; [unf; rewrite app_length; cbn [length]; lia|].
+      split; [unf; cbn [length]; lia|].
+      rewrite elements_snoc by assumption. rewrite <- app_assoc. reflexivity.
+  Qed.
+
+  Lemma snoc_last : forall A (l : list A) d, l <> [] -> l = firstn (length l - 1) l ++ [nth (length l - 1) l d].
+  Proof.
+    intros A l d H. assert (0 < length l) by (destruct l; [congruence|cbn; lia]).
+    rewrite (firstn_skipn_nth l (length l - 1) d) at 1 by lia.
+    rewrite (skipn_all2 (n := S (length l - 1))) by lia. reflexivity.
+  Qed.
+
+  (* ---------------------------------------------------------------- rotate_right *)
+  Lemma rotate_right_spec : forall h vs cs j, PK h vs cs -> j < length vs ->
+    min_vals L I (nth j cs dnode) < n_vals (nth j cs dnode) ->
+    n_vals (nth (S j) cs dnode) < max_vals L I (nth (S j) cs dnode) ->
+    exists x l' r',
+      rotate_right dflt (Inode vs cs) (S j) = Inode (aset vs j x) (aset (aset cs j l') (S j) r') /\
+      wfn L I h l' /\ wfn L I h r' /\
+      n_vals r' = S (n_vals (nth (S j) cs dnode)) /\
+      S (n_vals l') = n_vals (nth j cs dnode) /\
+      elements l' ++ x :: elements r' =
+      elements (nth j cs dnode) ++ nth j vs dflt :: elements (nth (S j) cs dnode).
+  Proof.
+    intros h vs cs j HP Hj Hl Hr.
+    pose proof (PK_child h vs cs j HP ltac:(lia)) as Wl.
+    pose proof (PK_child h vs cs (S j) HP ltac:(lia)) as Wr.
+    unfold rotate_right. replace (S j - 1) with j by lia.
+    destruct (nth j cs dnode) as [lv|lv lc] eqn:El; destruct (nth (S j) cs dnode) as [rv|rv rc] eqn:Er.
+    - apply wfn_leaf_inv in Wl as [-> Bl]. apply wfn_leaf_inv in Wr as [_ Br]. unf.
+      assert (Hne : lv <> []) by (destruct lv; [cbn [length] in *; lia|congruence]).
+      exists (nth (length lv - 1) lv dflt), (Leaf (firstn (length lv - 1) lv)), (Leaf (nth j vs dflt :: rv)).
+      split; [reflexivity|].
+      split; [apply wfn_leaf_intro; rewrite firstn_length; lia|].
+      split; [apply wfn_leaf_intro; cbn [length] in *; lia|].
+      split; [unf; cbn [length]; lia|].
+      split; [unf; rewrite firstn_length; lia|].
+      cbn [elements].
+      transitivity ((firstn (length lv - 1) lv ++ [nth (length lv - 1) lv dflt]) ++ nth j vs dflt :: rv);
+        [rewrite <- app_assoc; reflexivity | rewrite <- snoc_last by assumption; reflexivity].
+    - exfalso. apply wfn_leaf_inv in Wl as [-> _]. apply wfn_inode_inv in Wr as (h' & E & Hn & _). lia.
+    - exfalso. apply wfn_leaf_inv in Wr as [-> _]. apply wfn_inode_inv in Wl as (h' & E & Hn & _). lia.
+    - apply wfn_inode_inv in Wl as (h' & -> & Hn & Ll & Bl & Fl).
+      apply wfn_inode_inv in Wr as (h'' & E & _ & Lr & Br & Fr). injection E as <-. unf.
+      assert (Hne : lv <> []) by (destruct lv; [cbn [length] in *; lia|congruence]).
+      assert (Hnec : lc <> []) by (destruct lc; [cbn [length] in *; lia|congruence]).
+      exists (nth (length lv - 1) lv dflt),
+             (Inode (firstn (length lv - 1) lv) (firstn (length lv - 1 + 1) lc)),
+             (Inode (nth j vs dflt :: rv) (nth (length lv) lc dnode :: rc)).
+      split; [reflexivity|].
+      split.
+      { apply wfn_inode_intro; auto.
+        - rewrite !firstn_length. lia.
+        - rewrite firstn_length. lia.
+        - apply Forall_firstn. assumption. }
+      split.
+      { apply wfn_inode_intro; auto.
+        - cbn [length]. lia.
+        - cbn [length] in *. lia.
+        - constructor; auto. rewrite Forall_forall in Fl. apply Fl. apply nth_In. lia. }
+      split; [unf; cbn [length]; lia|].
+      split; [unf; rewrite firstn_length; lia|].
+      rewrite elements_uncons.
+      assert (E1 : elements (Inode lv lc) =
+                   elements (Inode (firstn (length lv - 1) lv) (firstn (length lv - 1 + 1) lc)) ++
+                   nth (length lv - 1) lv dflt :: elements (nth (length lv) lc dnode)).
+      { rewrite <- elements_snoc by (rewrite !firstn_length; lia).
+        replace (length lv - 1 + 1) with (length lc - 1) by lia.
+        replace (length lv) with (length lc - 1) at 3 by lia.
+        rewrite <- (snoc_last _ lv dflt Hne). rewrite <- (snoc_last _ lc dnode Hnec). reflexivity. }
+      rewrite E1. rewrite <- !app_assoc. reflexivity.
+  Qed.
+
+  (* ---------------------------------------------------------------- merge *)
+  Lemma merge_spec : forall h vs cs i, PK h vs cs -> i < length vs ->
+    n_vals (nth i cs dnode) = min_vals L I (nth i cs dnode) ->
+    n_vals (nth (S i) cs dnode) = min_vals L I (nth (S i) cs dnode) ->
+    exists m,
+      merge dflt (Inode vs cs) i = Inode (aerase vs i) (aerase (aset cs i m) (S i)) /\
+      wfn L I h m /\ min_vals L I m < n_vals m /\
+      elements m = elements (nth i cs dnode) ++ nth i vs dflt :: elements (nth (S i) cs dnode).
+  Proof.
+    intros h vs cs i HP Hi Hl Hr.
+    pose proof (PK_child h vs cs i HP ltac:(lia)) as Wl.
+    pose proof (PK_child h vs cs (S i) HP ltac:(lia)) as Wr.
+    unfold merge.
+    destruct (nth i cs dnode) as [lv|lv lc] eqn:El; destruct (nth (S i) cs dnode) as [rv|rv rc] eqn:Er.
+    - apply wfn_leaf_inv in Wl as [-> Bl]. apply wfn_leaf_inv in Wr as [_ Br]. unf.
+      exists (Leaf (lv ++ nth i vs dflt :: rv)).
+      split; [reflexivity|].
+      split; [apply wfn_leaf_intro; rewrite app_length; cbn [length]; lia|].
+      split; [unf; rewrite app_length; cbn [length]; lia|].
+      reflexivity.
+    - exfalso. apply wfn_leaf_inv in Wl as [-> _]. apply wfn_inode_inv in Wr as (h' & E & Hn & _). lia.
+    - exfalso. apply wfn_leaf_inv in Wr as [-> _]. apply wfn_inode_inv in Wl as (h' & E & Hn & _). lia.
+    - apply wfn_inode_inv in Wl as (h' & -> & Hn & Ll & Bl & Fl).
+      apply wfn_inode_inv in Wr as (h'' & E & _ & Lr & Br & Fr). injection E as <-. unf.
+      exists (Inode (lv ++ nth i vs dflt :: rv) (lc ++ rc)).
+      split; [reflexivity|].
+      split.
+      { apply wfn_inode_intro; auto.
+        - rewrite !app_length. cbn [length]. lia.
+        - rewrite app_length. cbn [length]. lia.
+        - apply Forall_app. auto. }
+      split; [unf; rewrite app_length; cbn [length]; lia|].
+      apply elements_join. assumption.
+  Qed.
+
+  (* ---------------------------------------------------------------- consequences at the parent *)
+  Lemma PK_two : forall h vs cs i x l' r', PK h vs cs -> i < length vs -> wfn L I h l' -> wfn L I h r' ->
+    PK h (aset vs i x) (aset (aset cs i l') (S i) r').
+  Proof.
+    intros h vs cs i x l' r' [Hl Hf] Hi Wl Wr. split.
+    - rewrite !length_aset; rewrite ?length_aset; lia.
+    - apply (Forall_aset _ rank dflt L I HI HI3); auto. apply (Forall_aset _ rank dflt L I HI HI3); auto.
+  Qed.
+
+  Lemma PK_merge : forall h vs cs i m, PK h vs cs -> i < length vs -> wfn L I h m ->
+    PK h (aerase vs i) (aerase (aset cs i m) (S i)).
+  Proof.
+    intros h vs cs i m [Hl Hf] Hi Wm. split.
+    - rewrite !length_aerase; rewrite ?length_aset; lia.
+    - apply Forall_aerase. apply (Forall_aset _ rank dflt L I HI HI3); auto.
+  Qed.
+
+  Lemma PK_aset : forall h vs cs i c, PK h vs cs -> i <= length vs -> wfn L I h c -> PK h vs (aset cs i c).
+  Proof.
+    intros h vs cs i c [Hl Hf] Hi Wc. split.
+    - rewrite length_aset; lia.
+    - apply (Forall_aset _ rank dflt L I HI HI3); auto.
   Qed.
 End RemovePrim.
 
